@@ -546,6 +546,22 @@ func (fr *frame) alloc(x *ssa.Alloc, st *State) *Val {
 		st.heap = st.heap.set(key, Store(st.heap.get(key), a, zero))
 		return &Val{T: a, Ty: x.Type()}
 	}
+	if fr.w.sortOf(el) != "" && !allocEscapes(x) {
+		// a local whose address never leaves this function: a private scalar
+		// cell that calls cannot touch
+		key := fr.w.regHeap(fmt.Sprintf("L:%s.%s", relName(fr.fn), x.Name()), fr.w.sortOf(el), el)
+		known := false
+		for _, k := range fr.vc.localKeys {
+			if k == key {
+				known = true
+			}
+		}
+		if !known {
+			fr.vc.localKeys = append(fr.vc.localKeys, key)
+		}
+		st.heap = st.heap.set(key, fr.w.zero(el))
+		return &Val{Loc: &Loc{Kind: LGlobal, Key: key, Ty: el}, Ty: x.Type()}
+	}
 	r := fr.newRef(fr.sym(x), st)
 	v := &Val{T: r, Ty: x.Type()}
 	if _, ok := fr.w.repoStruct(el); ok {
@@ -971,4 +987,37 @@ func (fr *frame) rangeNext(x *ssa.Next, st *State) *Val {
 	vc.assume(True, Implies(ok, Le(Add(pos, wdt), StrLen(s))))
 	st.heap = st.heap.set(it.key, Ite(ok, Add(pos, wdt), pos))
 	return &Val{Fs: []*Val{{T: ok, Ty: types.Typ[types.Bool]}, {T: pos, Ty: types.Typ[types.Int]}, {T: r, Ty: types.Typ[types.Int32]}}, Ty: x.Type()}
+}
+
+// allocEscapes: the address of the local is used for anything but direct
+// loads and stores (closures that are only called or deferred do not count).
+func allocEscapes(x *ssa.Alloc) bool {
+	for _, ref := range *x.Referrers() {
+		switch r := ref.(type) {
+		case *ssa.Store:
+			if r.Val == x {
+				return true
+			}
+		case *ssa.UnOp, *ssa.DebugRef:
+		case *ssa.MakeClosure:
+			for _, u := range *r.Referrers() {
+				switch c := u.(type) {
+				case *ssa.Call:
+					if c.Call.Value != r {
+						return true
+					}
+				case *ssa.Defer:
+					if c.Call.Value != r {
+						return true
+					}
+				case *ssa.DebugRef:
+				default:
+					return true
+				}
+			}
+		default:
+			return true
+		}
+	}
+	return false
 }
